@@ -171,6 +171,37 @@ def eval_table(item):
     return n, nontrivial, viols[:4]
 
 
+def check_from_config(variant: str):
+    """The routes / default_route of a router (firewall) config dict reach the table that find_best_route consults."""
+    sets = {"routes+default": ([(0, 1), (1, 0), (2, 1), (2, 0), (3, 1)], True), "routes-only": ([(3, 0), (1, 1), (1, 0)], False),
+            "default-only": ([], True)}
+    seq, has_default = sets[variant.split(":")[1]]
+    routes = [(PREFIXES[pi][0], PREFIXES[pi][1], route_nh(i), m) for i, (pi, m) in enumerate(seq)]
+    cfg = {"hostname": "r", "start_up_duration": 0,
+           "routes": [{"address": a, "subnet_mask": k, "next_hop_ip_address": nh, "metric": m} for a, k, nh, m in routes]}
+    if has_default:
+        cfg["default_route"] = {"next_hop_ip_address": DEF_NH}
+    if variant.startswith("firewall"):
+        cfg.update(type="firewall", ports={"external_port": {"ip_address": "172.16.0.1"}, "internal_port": {"ip_address": "172.16.1.1"}})
+        node = Firewall.from_config(cfg)
+    else:
+        cfg.update(type="router", num_ports=2)
+        node = Router.from_config(cfg)
+    viols, n = [], 0
+    for dst in DESTS:
+        exp = ref_lookup(routes, DEF_NH if has_default else None, dst)
+        got = node.route_table.find_best_route(dst)
+        nh = None if got is None else str(got.next_hop_ip_address)
+        n += 1
+        if nh not in exp:
+            viols.append(violation("best_route", "from_config:%s" % variant.split(":")[0],
+                                   "config %s destination %s: expected next hop in %s, got %s" % (cfg, dst, sorted(map(str, exp)), nh)))
+    return n, viols[:2]
+
+
+CONFIG_VARIANTS = ["%s:%s" % (k, v) for k in ("router", "firewall") for v in ("routes+default", "routes-only", "default-only")]
+
+
 def route_items(thorough: bool):
     pset = "T" if thorough else "Q"
     kinds = [(pi, m) for pi in range(len(PREFIXES_T if thorough else PREFIXES)) for m in METRICS]
@@ -873,7 +904,6 @@ class NetAdapter(engine.Adapter):
     def _warm(self, s, ev):
         """Does the source already know a MAC for the first hop?"""
         src = ev[1]
-        d = self.spec["nodes"][src]
         dst = self.spec["dns_ip"] if ev[0] == "dns" else (self.spec["nodes"][ev[2]]["ifs"][1][0] if ev[0] == "ping" else ev[2])
         port, nh = self.model.next_hop(src, dst)
         if port is None:
@@ -918,6 +948,8 @@ def make_adapter(doc):
 
 
 def replay(doc):
+    if doc.get("adapter") == "c08-from-config":
+        return check_from_config(doc["params"]["variant"])[1]
     if doc.get("adapter") == "c08-routes":
         it = doc["params"]["item"]
         return eval_table((it[0], tuple(tuple(x) for x in it[1]), it[2]))[2]
@@ -995,14 +1027,15 @@ class IcmpIdAdapter(NetAdapter):
 # run
 # ======================================================================================================================
 # (topology, depth, state budget, time budget s).  Cheap / defect-dense topologies first.
-QUICK_PLAN = [("lan", 3, 20000, 8), ("r1", 3, 20000, 10), ("r2s", 2, 20000, 8), ("r2d", 3, 20000, 10), ("r3s", 2, 20000, 8),
-              ("r3d", 2, 20000, 8), ("fw", 2, 20000, 8), ("sw2r-rrm", 2, 20000, 8), ("sw2r-mrr", 2, 20000, 8), ("wifi", 3, 20000, 6),
-              ("hostnh", 3, 20000, 4)]
-THOROUGH_PLAN = [("lan", 6, 400000, 40), ("r1", 5, 400000, 40), ("r2s", 5, 400000, 40), ("r2d", 5, 400000, 40),
-                 ("r3s", 5, 400000, 40), ("r3d", 5, 400000, 40), ("fw", 5, 400000, 40), ("sw2r-rrm", 4, 400000, 30),
-                 ("sw2r-mrr", 4, 400000, 30), ("wifi", 6, 400000, 20), ("hostnh", 8, 400000, 10)]
-# thorough: a level is only started while the time budget (s) is not used up; the last level costs about 3-4 times everything
-# before it, so each harness stays within about 5 times its budget (16 cores: about 25 min in all).
+QUICK_PLAN = [("lan", 3, 20000, 60), ("r1", 3, 20000, 60), ("r2s", 3, 20000, 60), ("r2d", 3, 20000, 60), ("r3s", 2, 20000, 60),
+              ("r3d", 2, 20000, 60), ("fw", 3, 20000, 60), ("sw2r-rrm", 2, 20000, 60), ("sw2r-mrr", 3, 20000, 60), ("wifi", 3, 20000, 60),
+              ("hostnh", 3, 20000, 60)]
+THOROUGH_PLAN = [("lan", 6, 400000, 60), ("r1", 5, 400000, 60), ("r2s", 5, 400000, 60), ("r2d", 5, 400000, 60),
+                 ("r3s", 5, 400000, 60), ("r3d", 5, 400000, 60), ("fw", 5, 400000, 60), ("sw2r-rrm", 4, 400000, 60),
+                 ("sw2r-mrr", 4, 400000, 60), ("wifi", 6, 400000, 30), ("hostnh", 8, 400000, 10)]
+# thorough: a level is only started while the time budget (s) is not used up; the last level costs about 3 times everything
+# before it.  Measured: 250k transitions, 160 CPU-minutes in all (about 12 min on 16 free cores); every depth completes when the
+# levels before the last fit into the budget, otherwise the cap is reported.
 
 
 def witness(topo_name):
@@ -1041,6 +1074,9 @@ def run(tier, is_known):
     viols, samples = [], []
     # adapters and product function are registered before the first pool is forked (one pool for the whole run)
     plan = THOROUGH_PLAN if thorough else QUICK_PLAN
+    only = [t for t in os.environ.get("VERIF_C08_TOPOS", "").split(",") if t]  # development aid: a subset of the topologies
+    if only:
+        plan = [p for p in plan if p[0] in only]
     scale = float(os.environ.get("VERIF_C08_TB_SCALE", "1") or 1)  # stretch the time budgets on a loaded / smaller machine
     adapters = [(NetAdapter(t), d, sb, tb * scale) for t, d, sb, tb in plan]
     idad = IcmpIdAdapter()
@@ -1058,6 +1094,14 @@ def run(tier, is_known):
         for x in v:
             x.update(adapter="c08-routes", params={"item": item}, history=[], event=None)
         viols += v
+    cfg_lookups = 0
+    for var in CONFIG_VARIANTS:
+        n, v = check_from_config(var)
+        cfg_lookups += n
+        for x in v:
+            x.update(adapter="c08-from-config", params={"variant": var}, history=[], event=None)
+        viols += v
+    lookups += cfg_lookups
     samples.append({"route_table": {"routes": [list(x) for x in items[len(items) // 2][1]], "default": items[len(items) // 2][2]}})
     t_routes = time.time() - t0
 
@@ -1099,7 +1143,7 @@ def run(tier, is_known):
                        "(states de-duplicated by canonical form, search not continued beneath a violating transition); the reference "
                        "reachability model and the delivery/TTL/termination monitors were evaluated on every transition",
         "route_tables": len(items), "route_lookups_compared": lookups, "route_lookups_with_competing_routes": nontrivial,
-        "route_product_seconds": round(t_routes, 1), "destinations": DESTS, "default_route_modes": DEFAULT_MODES,
+        "route_product_seconds": round(t_routes, 1), "from_config_variants": CONFIG_VARIANTS, "from_config_lookups": cfg_lookups, "destinations": DESTS, "default_route_modes": DEFAULT_MODES,
         "bfs_states": tot["states"], "bfs_transitions": tot["transitions"],
         "harnesses": per, "event_histogram": hist, "distinct_outcomes": tot["outcomes"],
         "exchange_outcomes_cold_then_warm": wit, "exchange_outcome_counts": wit_counts,
